@@ -13,10 +13,12 @@ import (
 	"flag"
 	"fmt"
 	"io"
+	"jivaverif/harness/stack"
 	"math/rand"
 	"os"
 	"os/exec"
 	"strings"
+	"time"
 
 	"github.com/sirupsen/logrus"
 
@@ -128,11 +130,19 @@ func pDiff(l []string) bool {
 	return false
 }
 
+// shrinking re-executes the real code; sequences with rebuilds or clones take seconds per run, so
+// the work per violation is bounded in time (the replay is then simply less minimal)
+var shrinkBudget = 75 * time.Second
+
 func shrink(lines []string, bad func([]string) bool) []string {
 	cur := lines
+	deadline := time.Now().Add(shrinkBudget)
 	for chunk := len(cur) / 2; chunk >= 1; {
 		changed := false
 		for i := 1; i+chunk <= len(cur); { // keep line 0 (init)
+			if time.Now().After(deadline) {
+				return cur
+			}
 			cand := append(append([]string{}, cur[:i]...), cur[i+chunk:]...)
 			if bad(cand) {
 				cur = cand
@@ -170,7 +180,8 @@ func isInternal(l string) bool {
 // a property-relevant observable (data read back, snapshot image, chain, counter, refusal)
 // differs from the model.
 func amplify(prefix []string, rng *rand.Rand, tries int) []string {
-	for t := 0; t < tries; t++ {
+	deadline := time.Now().Add(shrinkBudget)
+	for t := 0; t < tries && time.Now().Before(deadline); t++ {
 		dir, _ := os.MkdirTemp(*scratch, "jv-amp-")
 		g := &gstate{im: &rep.Impl{Dir: dir}, feat: map[string]bool{}, tagN: 900 + t*50, snapN: 900 + t*20, mode: "RW"}
 		for _, l := range prefix {
@@ -208,6 +219,7 @@ func amplify(prefix []string, rng *rand.Rand, tries int) []string {
 			}
 			g.im.S.Close()
 		}
+		g.im.Cleanup()
 		os.RemoveAll(dir)
 		os.RemoveAll(dir + ".copy")
 		model, err := runModel(g.lines)
@@ -224,8 +236,11 @@ func amplify(prefix []string, rng *rand.Rand, tries int) []string {
 }
 
 func main() {
+	stack.Init()
 	flag.Parse()
-	logrus.SetOutput(io.Discard)
+	if os.Getenv("VERIF_LOG") == "" {
+		logrus.SetOutput(io.Discard)
+	}
 	res := result{OpHist: map[string]int{}, Features: map[string]int{}}
 	os.MkdirAll(*outDir, 0755)
 
